@@ -182,6 +182,20 @@ func (fx *FnCtx) execInstr(st *State, pc *Term, ins ssa.Instruction) {
 		v := fx.storable(fx.val(t.Val))
 		fx.frameCheck(st, pc, p)
 		fx.StoreTo(st, p, v)
+		if site, isSite := fx.storeSites[t]; isSite && fx.topLevel && fx.fc != nil && len(fx.fc.GhostAt) > 0 {
+			env := fx.entryEnv(st)
+			env.oldEnv = fx.entryEnv(fx.entry)
+			env.pc = pc
+			env.lookup = fx.siteLookup(st, t)
+			fx.runGhost(fmt.Sprintf("store#%d", site), st, env)
+		}
+		if site, isSite := fx.stmtSites[t]; isSite && fx.topLevel && fx.fc != nil {
+			env := fx.entryEnv(st)
+			env.oldEnv = fx.entryEnv(fx.entry)
+			env.pc = pc
+			env.lookup = fx.siteLookup(st, t)
+			fx.runGhost(site, st, env)
+		}
 	case *ssa.FieldAddr:
 		p := fx.asPtr(fx.val(t.X))
 		fx.nonNil(pc, p, "field address")
@@ -240,12 +254,20 @@ func (fx *FnCtx) execInstr(st *State, pc *Term, ins ssa.Instruction) {
 			env.vars["dst"] = SV{V: dst}
 			env.vars["res"] = SV{V: v}
 			env.pc = pc
+			env.lookup = fx.siteLookup(st, t)
 			env.vars["fits"] = SV{V: Value{T: types.Typ[types.Bool], L: []*Term{And(Eq(v.L[0], dst.L[0]), Eq(v.L[1], dst.L[1]))}}}
 			if _, ok := t.Call.Args[1].Type().Underlying().(*types.Slice); ok {
 				el := elemTypeOf(t.Call.Args[1].Type())
 				env.vars["elem0"] = SV{V: fx.readElem(preSt, el, src.L[0], src.L[1])}
 			}
 			fx.runGhost(fmt.Sprintf("append#%d", site), st, env)
+		}
+		if site, isSite := fx.stmtSites[t]; isSite && fx.topLevel && fx.fc != nil {
+			env := fx.entryEnv(st)
+			env.oldEnv = fx.entryEnv(fx.entry)
+			env.pc = pc
+			env.lookup = fx.siteLookup(st, t)
+			fx.runGhost(site, st, env)
 		}
 	case *ssa.Extract:
 		tup := fx.val(t.Tuple)
